@@ -516,7 +516,13 @@ fn handle_a2ml(
     tokens: &mut Vec<A2lToken>,
 ) -> (usize, u32) {
     let tokcount = tokens.len();
-    if tokcount >= 2 && tokens[tokcount - 2].ttype == A2lTokenType::Begin {
+    // the token in front of the tag, not counting comments: /begin /* comment */ A2ML is also the start of an A2ML block
+    let prev_ttype = tokens[..tokcount.saturating_sub(1)]
+        .iter()
+        .rev()
+        .find(|tok| tok.ttype != A2lTokenType::Comment)
+        .map(|tok| &tok.ttype);
+    if prev_ttype == Some(&A2lTokenType::Begin) {
         let startpos = bytepos;
         let filebytes = filedata.as_bytes();
         let datalen = filedata.len();
